@@ -579,7 +579,7 @@ module.exports = {
   id: 'C11',
   level: 'exploration',
   chunk: 25,
-  runs: (tier) => tier === 'thorough' ? 60000 : 1500,
+  runs: (tier) => tier === 'thorough' ? 60000 : 2500,
   plan,
   jobs,
   execute,
